@@ -150,7 +150,7 @@ def _make_twin(harness, func, node, tmpdir):
 
 
 def _crosshair(target, timeout, per_path=None, part=None, unblock=False):
-    cmd = [CROSSHAIR, 'check', '--extra_plugin', os.path.join(HOME, 'engine', 'plugin.py'), '--report_all', '-v',
+    cmd = [CROSSHAIR, 'check', '--extra_plugin', os.path.join(HOME, 'engine', 'plugin.py'), '--report_all',
            '--per_condition_timeout', str(timeout)]
     if per_path:
         cmd += ['--per_path_timeout', str(per_path)]
@@ -179,17 +179,14 @@ def _crosshair_inner(cmd, env, timeout):
     import threading
 
     def pump():
+        # the path statistics come from engine/ch_stats.py (one VERIF-STATS line at exit); -v is not used: see that module
         for line in p.stderr:
-            if 'analyze_calltree() Iteration' in line:
-                stats['paths'] += 1
-            elif 'Path tree stats' in line:
-                stats['tree'] = line.split('Path tree stats', 1)[1].strip()
-            elif 'Unknown satisfiability' in line or 'UnknownSatisfiability' in line:
-                stats['unknown'] += 1
-            elif 'SMT realized symbolic' in line:
-                stats['realized'] += 1
-            elif 'Path execution timeout' in line:
-                stats['path_timeouts'] += 1
+            if line.startswith('VERIF-STATS '):
+                try:
+                    d = json.loads(line[len('VERIF-STATS '):])
+                    stats['paths'], stats['unknown'], stats['path_timeouts'], stats['tree'] = d['paths'], d['unknown'], d['path_timeouts'], d['tree']
+                except Exception:
+                    pass
             elif 'Traceback' in line or 'Error' in line:
                 stats.setdefault('stderr_tail', [])
                 if len(stats['stderr_tail']) < 20:
